@@ -140,6 +140,13 @@ Definition get_realpath (s : pstate) (p : path) : pstate * path :=
   | Some r => (s, r)
   | None => let r := rp p in ({| cache := (p, r) :: cache s; trees := trees s |}, r)
   end.
+(* a tempting variant that is WRONG: also remember the answer under the lexically normalised
+   spelling [np p] (os.path.normpath) and under the real path itself *)
+Definition get_realpath_np (np : path -> path) (s : pstate) (p : path) : pstate * path :=
+  match plookup p (cache s) with
+  | Some r => (s, r)
+  | None => let r := rp p in ({| cache := (r, r) :: (np p, r) :: (p, r) :: cache s; trees := trees s |}, r)
+  end.
 Definition insert_file (s : pstate) (fn : path) : pstate :=
   let '(s1, r) := get_realpath s fn in
   match plookup r (trees s1) with
